@@ -1,1 +1,3 @@
 import ThriftVerif.Props.C09
+#print axioms Props.C09.old_reads_new
+#print axioms Props.C09.new_reads_old
